@@ -12,16 +12,24 @@ the implementation, independently of the model: the call terminates (per-item al
 a runaway cap on the source), pulls <= a*n+b with the constants of the theorems
 (filter-like stages: position of the n-th admissible item, computed by a reference
 written with list comprehensions), outputs equal the mathematical transformation of the
-source prefix; compositions of up to 3 stages against the composed bound f1(f2(f3(n)))."""
+source prefix; compositions of up to 3 stages against the composed bound f1(f2(f3(n))).
+
+Two input families beyond "nice items, short prefixes" (both applied uniformly to every catalogued stage):
+adversarial item kinds (sources of exact, nearly equal items: rationals 1e-40 apart, integers around 2**53,
+numbers alternating with their spellings, rows of nearly equal rationals -- see ADVERSARIAL) and long prefixes
+(the first 400 items and the single item at index 500 -- see long_probe)."""
 from __future__ import annotations
 
 import itertools
 import time
+from fractions import Fraction
 
 from vlib import common as V
 
-CAP = 20000          # the source raises Runaway after this many pulls (max legitimate demand is ~1100)
+CAP = 20000          # the source raises Runaway after this many pulls (max legitimate demand is ~1100; long prefixes ~3600)
 LMAX = 2048          # longest source prefix the reference looks at before calling a case inadmissible
+LMAX_LONG = 8192     # ... for the long-prefix probe
+LONG_N, LONG_AT = 400, 500   # long-prefix probe: the first LONG_N items, and the single item at index LONG_AT
 
 
 class Runaway(Exception):
@@ -41,6 +49,21 @@ def src_value(table, c, i):
 #   "str"  a one-character string              (an infinite list made only of strings)
 #   "rows" the finite list [v, v+1, ...] of length v mod 4, empty rows included  (infinite list of finite chunks)
 #   "inf"  the infinite lazy list v, v+1, ...  (infinite list of infinite lists)
+#
+# ADVERSARIAL ITEM KINDS (added after seed C14e-1: a "seen" set keyed by the float image of an item made uniquify
+# wait forever for a second "new" item).  The sources above only produce "nice" items: small integers, letters.
+# Anything a stage does with an item besides passing it on -- comparing, hashing, keying a memo, ordering,
+# rounding, testing truth -- can be wrong only on items that such an approximation confuses, so every stage is also
+# fed, uniformly, sources whose items are exact but nearly equal (all judged against the same exact reference):
+#   "near"  the rational 1/3 + v/10**40       (equal iff the v are equal; ALL float images coincide)
+#   "drift" the rational v + i/10**40         (pairwise distinct for every i although the v -- and the float images -- repeat)
+#   "big"   the integer 2**53 + v             (neighbours on both sides of 2**53 share a float image)
+#   "twin"  v at even i, the string str(v) at odd i   (spelling twins: a number and its text, equal under str())
+#   "nrows" finite rows of length v mod 4 of "near" rationals (nearly-equal lists, empty rows included)
+# Numbers are handed to the implementation as int / sympy.Rational and read back exactly (Fraction); no float is
+# ever compared.
+EPS = Fraction(1, 10 ** 40)
+ADVERSARIAL = ("near", "drift", "big", "twin", "nrows")
 INNER = 5            # an infinite inner lazy list is shown by its first INNER items
 PROBE = 64           # ... and recognised by having more than PROBE items
 
@@ -63,7 +86,27 @@ def src_ref(src, i):
         return chr(97 + v % 26)
     if shape == "rows":
         return [v + j for j in range(v % 4)]
+    if shape == "near":
+        return Fraction(1, 3) + v * EPS
+    if shape == "drift":
+        return v + i * EPS
+    if shape == "big":
+        return 2 ** 53 + v
+    if shape == "twin":
+        return v if i % 2 == 0 else str(v)
+    if shape == "nrows":
+        return [Fraction(1, 3) + (v + j) * EPS for j in range(v % 4)]
     return InfRow(v)
+
+
+def to_impl(x):
+    """A reference item as the value the implementation is given: Fraction -> sympy.Rational (exact)."""
+    if isinstance(x, Fraction):
+        import sympy
+        return sympy.Rational(x.numerator, x.denominator)
+    if isinstance(x, list):
+        return [to_impl(y) for y in x]
+    return x
 
 
 def render(x):
@@ -86,7 +129,7 @@ class Source:
             if self.pulls > CAP:
                 raise Runaway()
             v = src_ref(self.src, i)
-            yield counting(v.start) if isinstance(v, InfRow) else v
+            yield counting(v.start) if isinstance(v, InfRow) else to_impl(v)
             i += 1
 
 
@@ -103,11 +146,20 @@ def dsum(x):
     from vyxal.LazyList import LazyList
     if isinstance(x, (list, tuple, LazyList)):
         return sum(dsum(y) for y in x)
-    return int(x)
+    return int(x) if int(x) == x else x        # exact: a rational item stays a rational
 
 
 def rsum(x):
     return sum(rsum(y) for y in x) if isinstance(x, list) else x
+
+
+def mod_key(s):
+    """The integer a filter predicate reduces mod m: s itself if it is an integer, else floor(s * 10**40) -- so that the
+    predicate also tells nearly equal rationals apart (s: int | Fraction | sympy.Rational; exact)."""
+    if isinstance(s, int):
+        return s
+    p, q = (s.numerator, s.denominator) if isinstance(s, Fraction) else (int(s.p), int(s.q))
+    return p if q == 1 else (p * 10 ** 40) // q
 
 
 def rleaves(x):
@@ -134,7 +186,8 @@ STRUCTURAL = {"zip_l", "zip_r", "zip_fin_l", "zip_fin_r", "prefixes", "windows",
               "insert_at", "remove_at"}
 KEEPS_ITEMS = {"slice", "stride", "uninterleave", "head_remove", "remove_at", "uniquify", "union", "append", "append_list"}
 RELATIVE = {"filter_mod", "uniquify", "union", "truthy", "group", "flatten", "flatten1", "flatten_by", "union_fin_l", "filter_not_in"}
-START_KIND = {"int": "int", "str": "str", "rows": "rows", "inf": "inf"}
+START_KIND = {"int": "int", "str": "str", "rows": "rows", "inf": "inf",
+              "near": "int", "drift": "int", "big": "int", "twin": "twin", "nrows": "rows"}   # numbers of any size are "int"
 
 
 def applicable(stage, kind):
@@ -143,7 +196,7 @@ def applicable(stage, kind):
     name = stage[0]
     if kind in ("inf", "sdeep"):
         return name in STRUCTURAL
-    if kind == "str":
+    if kind in ("str", "twin"):                 # twin: numbers and strings mixed, as items like strings
         return name in STRUCTURAL or name in COMPARING or name in HASHING
     if name in INT_ONLY or name in HASHING:
         return kind == "int"
@@ -158,6 +211,8 @@ def kind_after(stage, kind):
     name = stage[0]
     if kind == "inf":
         return "inf"
+    if kind == "twin":
+        return "twin" if name in KEEPS_ITEMS else ("int" if name == "uniq_mask" else "sdeep")
     if kind in ("str", "sdeep"):
         if name in KEEPS_ITEMS or (kind == "str" and name in ("chunks", "flatten", "flatten_by")):
             return kind                         # chunks of strings are joined back into strings
@@ -186,7 +241,7 @@ def apply_stage(stage, L, ctx):
         return E.vy_map(L, lambda x, ctx=None: dsum(x), ctx)
     if name == "filter_mod":
         m, r = p
-        return E.vy_filter(L, lambda x, ctx=None: dsum(x) % m == r, ctx)
+        return E.vy_filter(L, lambda x, ctx=None: mod_key(dsum(x)) % m == r, ctx)
     if name == "zip_l":
         return E.vy_zip(L, counting(p[0]), ctx)
     if name == "zip_r":
@@ -357,6 +412,22 @@ def flat_ref(seq, depth):
             yield from flat_ref(sub, depth - 1)
 
 
+def exact_key(x):
+    """Hashable stand-in with EXACT equality (int / Fraction / str compare and hash exactly; a number never equals
+    a string); lets the first-occurrence references run in linear time on the long prefixes."""
+    return tuple(exact_key(y) for y in x) if isinstance(x, list) else x
+
+
+def first_flags(l):
+    """flags[i] = no earlier item of l equals l[i] (exactly)."""
+    seen, flags = set(), []
+    for x in l:
+        k = exact_key(x)
+        flags.append(k not in seen)
+        seen.add(k)
+    return flags
+
+
 def ref_stage(stage, l):
     name, p = stage[0], stage[1:]
     n = len(l)
@@ -365,7 +436,7 @@ def ref_stage(stage, l):
     if name in ("map_sum", "vec_sum"):
         return [rsum(x) for x in l]
     if name == "filter_mod":
-        return [x for x in l if rsum(x) % p[0] == p[1]]
+        return [x for x in l if mod_key(rsum(x)) % p[0] == p[1]]
     if name == "zip_l":
         return [[x, p[0] + i] for i, x in enumerate(l)]
     if name == "zip_r":
@@ -381,7 +452,7 @@ def ref_stage(stage, l):
     if name == "prefixes":
         return [l[:i + 1] for i in range(n)]
     if name == "cumsum":
-        return [sum(l[:i + 1]) for i in range(n)]
+        return list(itertools.accumulate(l))
     if name == "deltas":
         return [l[i + 1] - l[i] for i in range(n - 1)]
     if name == "windows":
@@ -396,9 +467,9 @@ def ref_stage(stage, l):
     if name == "flatten_by":
         return l if p[0] == 0 else list(itertools.islice(flat_ref(l, p[0]), FLAT_BUDGET))
     if name in ("uniquify", "union"):
-        return [x for i, x in enumerate(l) if x not in l[:i]]
+        return [x for x, new in zip(l, first_flags(l)) if new]
     if name == "uniq_mask":
-        return [int(x not in l[:i]) for i, x in enumerate(l)]
+        return [int(new) for new in first_flags(l)]
     if name == "enumerate":
         return [[i, x] for i, x in enumerate(l)]
     if name == "prepend":
@@ -450,7 +521,7 @@ def ref_stage(stage, l):
         return [y for i in range(m) for y in (fin[i], l[i])] + (fin[n:n + 1] if n < len(fin) else l[m:])
     if name == "union_fin_l":
         both = list(p[0]) + l
-        return [x for i, x in enumerate(both) if x not in both[:i]]
+        return [x for x, new in zip(both, first_flags(both)) if new]
     if name == "filter_not_in":
         return [x for x in l if x not in p[0]]
     if name == "append_list":
@@ -497,12 +568,13 @@ def need(stage, n, inp):
     return a * n + b
 
 
-def expectations(src, stages, N):
-    """For every n <= N: (bound on the pulls of the source, expected outputs), or None if
-    the n-th output does not exist within the first LMAX source items."""
+def expectations(src, stages, N, ns=None, lmax=LMAX):
+    """For every n <= N (or every n of ns): (bound on the pulls of the source, expected outputs), or None if
+    the n-th output does not exist within the first lmax source items."""
     out = {}
     length = 128
-    todo = list(range(N + 1))
+    todo = list(range(N + 1)) if ns is None else list(ns)
+    wanted = list(todo)
     while todo:
         streams = [[src_ref(src, i) for i in range(length)]]
         for s in stages:
@@ -519,13 +591,13 @@ def expectations(src, stages, N):
                 out[n] = (k, render(streams[-1][:n]))
             else:
                 later.append(n)
-        if length >= LMAX:
+        if length >= lmax:
             for n in later:
                 out[n] = None
             break
         todo = later
         length *= 4
-    return [out[n] for n in range(N + 1)]
+    return [out[n] for n in wanted]
 
 
 # ----------------------------------------------------------------------------
@@ -551,6 +623,8 @@ def force(x):
         import sympy
         if isinstance(x, sympy.Integer):
             return int(x)
+        if isinstance(x, sympy.Rational):          # exact; compares with the reference's Fraction (and with int)
+            return Fraction(int(x.p), int(x.q))
     except Exception:  # noqa: BLE001
         pass
     return "?<" + type(x).__name__ + ":" + repr(x)[:40]
@@ -577,6 +651,8 @@ def measure(item):
         if n:
             L[n - 1]
         out = [L[i] for i in range(n)]
+    elif mode == "at":                 # the single item at index n (long-prefix probe)
+        out = [L[n]]
     elif mode == "slice":              # every other way of taking a prefix, and the boundary observations
         out = L[:n]
     elif mode == "slice1":
@@ -598,7 +674,7 @@ def measure(item):
     else:
         raise KeyError(mode)
     pulls = src.pulls
-    if mode in ("islice", "index", "slice", "slice1", "slice_nn", "elem_index", "zero_slice", "one_slice"):
+    if mode in ("islice", "index", "at", "slice", "slice1", "slice_nn", "elem_index", "zero_slice", "one_slice"):
         return (pulls, [force(y) for y in out])     # the taken prefix itself is finite: never abbreviated
     return (pulls, force(out))
 
@@ -685,6 +761,14 @@ def make_sources(rng):
         (t1, 1, "str"),         # an infinite list made only of strings
         (t1, 1, "rows"),        # an infinite list of finite rows of length 0..3
         ((0,), 1, "inf"),       # an infinite list of infinite lists
+        # adversarial item kinds (see ADVERSARIAL above): exact, pairwise distinct or truly repeating, nearly equal
+        ((0,), 1, "near"),      # 1/3 + i/10**40: pairwise distinct, every float image the same
+        (t1, 1, "near"),        # the same with true repeats in between
+        (t1, 1, "drift"),       # v + i/10**40: pairwise distinct although v (and the float image) repeats
+        ((0,), 1, "big"),       # 2**53 + i: adjacent integers that share float images in pairs
+        (t2, 3, "big"),         # both sides of 2**53, with repeats
+        (t1, 1, "twin"),        # v, str(v) alternating: a number and its spelling are different items
+        (t1, 1, "nrows"),       # rows of nearly equal rationals
     ]
 
 
@@ -761,13 +845,19 @@ def has_marker(x):
     return any(has_marker(y) for y in x) if isinstance(x, list) else (isinstance(x, str) and x.startswith("?<"))
 
 
+SHAPE_TEXT = {"str": " of strings", "rows": " of finite rows", "inf": " of infinite lists",
+              "near": " of rationals 1e-40 apart (1/3 + v/10**40)", "drift": " of pairwise distinct rationals v + i/10**40",
+              "big": " of integers around 2**53", "twin": " of numbers alternating with their spellings",
+              "nrows": " of finite rows of rationals 1e-40 apart"}
+
+
 def judge(env, entries, results, cases, prim, formula, hung):
     """Oracle on one batch of measurements; fills prim (what iteration pulls and yields), cases (integer sources,
     for the model) and hung (stages that did not terminate)."""
     for idx, ((src, pl, n), (bound, expected)) in enumerate(entries):
         inp = {"source": src_json(src), "pipeline": [list(map(_jsonable, s)) for s in pl], "n": n}
         name = pname(pl)
-        on = "" if src[2] == "int" else {"str": " of strings", "rows": " of finite rows", "inf": " of infinite lists"}[src[2]]
+        on = "" if src[2] == "int" else SHAPE_TEXT[src[2]]
         tag = name if src[2] == "int" else f"{name}@{src[2]}"
         got = {}
         for mode, (st, val) in zip(("islice", "index"), results[2 * idx:2 * idx + 2]):
@@ -898,6 +988,8 @@ def run_all(env, with_model=True):
     for group in (first, rest):
         items = [(src, pl, n, mode) for n in take_ns for mode in TAKE_MODES if mode not in hung_modes for (src, pl) in group]
         items += [(src, pl, 0, mode) for mode in BOUNDARY_MODES if mode not in hung_modes for (src, pl) in group]
+        # a take whose expectation is not determined (the n-th item is inadmissible) is not judged: not measured either
+        items = [it for it in items if take_expectation(it[3], it[2], prim.get((it[0], it[1]), {})) is not None]
         res = V.pmap(measure, items, timeout=env.budget(6.0, 12.0))
         takes_checked += judge_takes(env, items, res, prim, hung_modes)
         V.log(f"[C14] other ways of taking: {len(items)} ({time.time()-t0:.1f}s)")
@@ -906,12 +998,15 @@ def run_all(env, with_model=True):
                                "checked_against_iteration": takes_checked,
                                "ways_that_hung_and_were_not_repeated": sorted(hung_modes)})
     measured += takes
+    # long prefixes: every single stage on every source, and the first compositions
+    measured += long_probe(env, jobs[:nsingle] + jobs[nsingle:nsingle + env.budget(60, 300)], hangs, t0)
     env.count(len(measured), (f"{src}:{pname(pl)}:{n}:{m}" for (src, pl, n, m) in measured if n >= 1 or m not in ("islice", "index")))
     env.note("n_max", N)
     comps = [j for j in jobs[nsingle:]]
     env.note("pipelines", {"single_stage_with_parameters": len(cat), "single_on_a_source": nsingle, "compositions": len(comps),
                            "of_length_2": sum(1 for j in comps if len(j[1]) == 2), "of_length_3": sum(1 for j in comps if len(j[1]) == 3),
-                           "by_source_shape": {sh: sum(1 for j in jobs if j[0][2] == sh) for sh in ("int", "str", "rows", "inf")}})
+                           "by_source_shape": {sh: sum(1 for j in jobs if j[0][2] == sh) for sh in ("int", "str", "rows", "inf") + ADVERSARIAL}})
+    env.note("adversarial_item_kinds", {sh: SHAPE_TEXT[sh].strip() for sh in ADVERSARIAL})
     env.note("parameter_spaces", {k: [list(map(_jsonable, ps)) for ps in v] for k, v in PARAMS.items() if v != [()]})
     env.note("inadmissible_skipped", skipped)
     if hung:
@@ -948,6 +1043,71 @@ def _jsonable(x):
     return list(x) if isinstance(x, tuple) else x
 
 
+def _expect_long(job):
+    src, pl = job
+    e_n, e_at = expectations(src, pl, None, ns=(LONG_N, LONG_AT + 1), lmax=LMAX_LONG)
+    if e_at is not None:
+        e_at = (e_at[0], e_at[1][LONG_AT:])            # only the item at index LONG_AT travels back
+    return e_n, e_at
+
+
+def long_probe(env, jobs, hangs, t0):
+    """LONG PREFIXES (added after seed C14e-2: windows rebuilt as a slice of a slice of a slice ... is right, and pulls
+    exactly n+k-1 items, for every n up to ~330, then dies in the interpreter's recursion limit).  All other
+    measurements stop at n = 12 / 40, so any cost or depth that grows with the NUMBER OF ITEMS ALREADY PRODUCED
+    (nested generators, recursion per item, a quadratic rescan) stays invisible.  Uniformly for every catalogued stage
+    with every parameter, on every source (adversarial ones included), and for a sample of the compositions: the first
+    LONG_N items by iteration and the single item at index LONG_AT by indexing a fresh pipeline, under the watchdog;
+    the pulls must stay within the same linear bound, the items must be the reference's, and ANY exception
+    (RecursionError included) means the finite prefix was not produced."""
+    ljobs = [(src, pl) for (src, pl, _) in jobs if not hangs(src, pl)]
+    exps = V.pmap(_expect_long, ljobs, timeout=300.0)
+    items, wants = [], []
+    inadmissible = 0
+    for (src, pl), (st, es) in zip(ljobs, exps):
+        if st != "ok":
+            env.proof_broken("reference evaluation failed (long prefix)", f"{pname(pl)} on {src_json(src)}: {st} {es}")
+            continue
+        for n, mode, e in ((LONG_N, "islice", es[0]), (LONG_AT, "at", es[1])):
+            if e is None:
+                inadmissible += 1
+            else:
+                items.append((src, pl, n, mode))
+                wants.append(e)
+    rank = {}
+    for (src, _) in ljobs:
+        rank.setdefault(src, len(rank))                   # sources in the order of make_sources: the plainest first
+    order = sorted(range(len(items)), key=lambda i: (len(items[i][1]), rank[items[i][0]], pname(items[i][1]), items[i][3]))
+    items, wants = [items[i] for i in order], [wants[i] for i in order]
+    res = V.pmap(measure, items, timeout=env.budget(20.0, 40.0))
+    for (src, pl, n, mode), (bound, expected), (st, val) in zip(items, wants, res):
+        name = pname(pl)
+        on = "" if src[2] == "int" else SHAPE_TEXT[src[2]]
+        tag = name if src[2] == "int" else f"{name}@{src[2]}"
+        what = f"the first {n} items" if mode == "islice" else f"the item at index {n}"
+        inp = {"source": src_json(src), "pipeline": [list(map(_jsonable, s)) for s in pl], "n": n,
+               "mode": "islice" if mode == "islice" else "L[n]"}
+        if st == "timeout" or (st == "exc" and str(val).startswith("Runaway")):
+            how = "does not terminate (watchdog)" if st == "timeout" else f"pulled more than {CAP} items of the source (bound {bound})"
+            env.fail(inp, f"taking {what} of {name} of an infinite list{on} {how}", cls=f"nonterminating-long:{tag}")
+        elif st == "exc":
+            env.fail(inp, f"taking {what} of {name} of an infinite list{on} is not completed: raises {val}", cls=f"raises-long:{tag}")
+        elif val[0] == "not-lazy":
+            continue                                      # reported by the primary measurements
+        else:
+            pulls, outs = val
+            if pulls > bound:
+                env.fail(inp, f"{name}: {what} pulled {pulls} items of the source{on}, bound {bound}",
+                         cls=f"pulls-exceed-long:{tag}", extra={"pulls": pulls, "bound": bound})
+            if outs != expected:
+                env.fail(inp, f"{name}: {what}: got {str(outs)[-200:]}, mathematically {str(expected)[-200:]}", cls=f"outputs-long:{tag}")
+    V.log(f"[C14] long prefixes: {len(items)} ({time.time()-t0:.1f}s)")
+    env.note("long_prefix_probe", {"first_n_by_iteration": LONG_N, "single_item_at_index": LONG_AT, "pipelines": len(ljobs),
+                                   "single_stage": sum(1 for j in ljobs if len(j[1]) == 1), "measured": len(items),
+                                   "inadmissible_skipped": inadmissible, "reference_prefix_up_to": LMAX_LONG})
+    return items
+
+
 def _expect(job):
     src, pl, N = job
     return expectations(src, pl, N)
@@ -981,7 +1141,14 @@ RULE = ("instrumented infinite source (generator counting its resumptions, wrapp
         "exactly what iteration does (n = 0 and empty ranges: nothing beyond the constructor, theorem C14_zero).  Each primary measurement "
         "on an integer source (pulls, first n outputs) is compared with run_until of the pull-machine model inside Coq (exact equality); every "
         "measurement is judged by the oracle: terminates, pulls <= bound of the theorems (composed stage by stage), outputs equal the reference "
-        "transformation.  Non-trivial = n >= 1 or a slicing/boundary way of taking; distinct by (source, pipeline, n, way).")
+        "transformation.  ADVERSARIAL ITEM KINDS: besides the six sources above, seven sources of exact but nearly equal items go through every "
+        "stage that applies to their kind, all n, both ways, and into the compositions: rationals 1/3 + v/10**40 (pairwise distinct, and with true "
+        "repeats), v + i/10**40 (pairwise distinct although v repeats), integers 2**53 + v (pairwise distinct, and on both sides of 2**53 with "
+        "repeats), numbers alternating with their decimal spellings, finite rows of rationals 1e-40 apart; handed over as int / sympy.Rational, "
+        "read back as Fraction, the reference is exact.  LONG PREFIXES: every single stage with every parameter on every one of the 13 sources, and "
+        "the first 60 (quick) / 300 (thorough) compositions: the first 400 items by iteration and the single item at index 500 by L[500] on a fresh "
+        "pipeline, under the watchdog; pulls within the same linear bound, items equal the reference, any exception (RecursionError included) is a "
+        "failure to produce the prefix.  Non-trivial = n >= 1 or a slicing/boundary way of taking; distinct by (source, pipeline, n, way).")
 
 
 def run(env):
@@ -1004,6 +1171,8 @@ def assumptions(env):
                "in that respect; the theorems give termination and the bound for every n on the model only" % CAP)
     env.assume("filter, uniquify, union, truthy indices, group consecutive, flatten: the bound is relative to the position of the n-th admissible "
                "item of the actual input; cases whose n-th item lies beyond the first %d source items are not run" % LMAX)
+    env.assume("long prefixes (n = %d, index %d) and the adversarial item kinds (rationals, integers around 2**53, number/spelling twins) are judged by "
+               "the oracle only; the model is evaluated for n <= 40 on small integers" % (LONG_N, LONG_AT))
     env.assume("sources of strings, of finite rows and of infinite lists are judged by the oracle only (reference, bounds, watchdog); the Coq model is "
                "evaluated on the integer sources, its value universe has neither strings nor infinite inner lists")
     env.assume("windows/chunks of size 0 and transformations that need the end of the list (tail remove, ÞR) are outside the quantifier "
